@@ -50,6 +50,9 @@ def all_configs():
         for fno in (0.6, 2.0):
             for n in (1.3, 1.5, 1.7, 2.0):
                 out.append(("window_paraboloid", (R, fno, n)))
+        for n in (1.33, 4.0):
+            out.append(("immersed_paraboloid", (R, 1.2, n)))
+            out.append(("immersed_ellipsoid", (R, 3, 5, False, 0.3, n)))
         for (p, q) in ECC:
             for near in (False, True):
                 for na in NAS:
